@@ -164,6 +164,7 @@ func (r *run) runBlock(si int, items []item, commit bool) {
 		r.fail(si, action, "hang", true, "hang:"+hg.Call, fmt.Sprintf("%s (%d signature-checking goroutines) on block [%s]: block execution never returns, the node is stuck at this height\n%s",
 			hg.String(), r.routines, strings.Join(desc, ", "), trim(hg.Dump)), nil, nil)
 		r.rep.Emit()
+		evmutil.RemoveAllDirs()
 		os.Exit(0) // the stuck goroutines cannot be reclaimed
 	}
 	if pnc != nil {
@@ -245,6 +246,7 @@ func (r *run) runBlock(si int, items []item, commit bool) {
 	if hg, ok := pnc.(evmutil.Hang); ok {
 		r.fail(si, "Commit", "hang", true, "hang:"+hg.Call, hg.String()+"\n"+trim(hg.Dump), nil, nil)
 		r.rep.Emit()
+		evmutil.RemoveAllDirs()
 		os.Exit(0)
 	}
 	if pnc != nil || cerr != nil {
